@@ -116,6 +116,7 @@ type node struct {
 	nBoot        int
 	inits        int
 	nExec        int
+	forkUsed     bool           // the fork database (store prefix "groupFork") was written since the last boot
 	retained     []*types.Group // objects the chain handed out in the previous raw-store check
 	pending      []string       // results of the two concurrent AddGroup calls, in the order they are reported as cadd lines
 	nConc        int
@@ -285,6 +286,21 @@ func addErr(err error) string {
 	return "err:" + strings.ReplaceAll(err.Error(), " ", "_")
 }
 
+func parseMembers(s string) ([][]byte, bool) {
+	if s == "-" {
+		return nil, true
+	}
+	var out [][]byte
+	for _, p := range strings.Split(s, "+") {
+		b, err := hx.UnHex(p)
+		if err != nil {
+			return nil, false
+		}
+		out = append(out, b)
+	}
+	return out, true
+}
+
 func parseGroup4(a, b, c, d string) (*types.Group, bool) {
 	id, e1 := hx.UnHex(a)
 	pre, e2 := hx.UnHex(b)
@@ -305,6 +321,15 @@ func (n *node) mutate(ws []string) (string, bool) {
 		if !ok {
 			return "", false
 		}
+		n.everIds[string(g.Id)] = g.Id
+		return addErr(gc.AddGroup(g)), true
+	case len(ws) == 6 && ws[0] == "add":
+		g, ok := parseGroup4(ws[1], ws[2], ws[3], ws[4])
+		ms, ok2 := parseMembers(ws[5])
+		if !ok || !ok2 {
+			return "", false
+		}
+		g.Members = ms
 		n.everIds[string(g.Id)] = g.Id
 		return addErr(gc.AddGroup(g)), true
 	case len(ws) == 1 && ws[0] == "rmlast":
@@ -519,6 +544,46 @@ func (n *node) query(ws []string) (string, bool) {
 			return "LOOP", true
 		}
 		return gstr(firstBelowImpl(x)), true
+	case len(ws) == 2 && ws[0] == "avail":
+		h, err := strconv.ParseUint(ws[1], 10, 64)
+		if err != nil {
+			return "", false
+		}
+		if !forkHook {
+			return "unmodelled", true
+		}
+		if _, ok := n.iterIds(); !ok {
+			return "LOOP", true
+		}
+		var l []string
+		for _, g := range availableAtImpl(h) {
+			if g == nil {
+				l = append(l, "nil")
+			} else {
+				l = append(l, hx.Hex(g.Id))
+			}
+		}
+		return listStr(l), true
+	case len(ws) == 3 && ws[0] == "availm":
+		h, err := strconv.ParseUint(ws[1], 10, 64)
+		m, err2 := hx.UnHex(ws[2])
+		if err != nil || err2 != nil {
+			return "", false
+		}
+		if _, ok := n.iterIds(); !ok {
+			return "LOOP", true
+		}
+		r := guard(func() string {
+			var l []string
+			for _, g := range gc.GetAvailableGroupsByMinerId(h, m) {
+				l = append(l, hx.Hex(g.Id))
+			}
+			return listStr(l)
+		})
+		if strings.HasPrefix(r, "PANIC") {
+			r = "PANIC" // nil genesis group dereferenced
+		}
+		return r, true
 	case len(ws) == 1 && ws[0] == "top":
 		if !bootHook {
 			return "unmodelled", true
@@ -527,6 +592,9 @@ func (n *node) query(ws []string) (string, bool) {
 	case len(ws) == 1 && ws[0] == "dump":
 		var l []string
 		for _, kv := range core.VerifGroupChainDump() {
+			if n.forkUsed && strings.HasPrefix(string(kv[0]), "Fork") {
+				continue // the fork database's own keys (protobuf values; see fork_keyspace_disjoint)
+			}
 			l = append(l, hx.Hex(kv[0])+"="+valStr(kv[0], kv[1]))
 		}
 		if len(l) == 0 {
@@ -576,6 +644,9 @@ func (n *node) exec(line string) string {
 	ws := strings.Fields(line)
 	if len(ws) == 0 {
 		return "bad-op"
+	}
+	if ws[0] == "config" {
+		return "ok" // tells the model a configuration value of the node (see main)
 	}
 	if ws[0] == "bootcrash" {
 		// bootcrash <k1> <k2|-> <genesis…>: crash points during the first start-up (hook H4b)
@@ -642,18 +713,33 @@ func (n *node) exec(line string) string {
 		var gi []*types.GenesisInfo
 		for _, t := range ws[1:] {
 			p := strings.Split(t, ",")
-			if len(p) != 4 {
+			if len(p) < 4 || len(p) > 6 {
 				return "bad-op"
 			}
 			g, ok := parseGroup4(p[0], p[1], p[2], p[3])
 			if !ok {
 				return "bad-op"
 			}
+			if len(p) >= 5 {
+				dm, err := strconv.ParseUint(p[4], 10, 64)
+				if err != nil {
+					return "bad-op"
+				}
+				g.Header.DismissHeight = dm
+			}
+			if len(p) == 6 {
+				ms, ok := parseMembers(p[5])
+				if !ok {
+					return "bad-op"
+				}
+				g.Members = ms
+			}
 			gi = append(gi, &types.GenesisInfo{Group: *g})
 		}
 		n.wipe()
 		n.h = &helper{genesis: gi}
 		n.booted = true
+		n.forkUsed = false
 		n.hist = nil
 		n.nBoot++
 		if len(gi) == 0 {
@@ -671,11 +757,54 @@ func (n *node) exec(line string) string {
 		return "unmodelled"
 	}
 	switch ws[0] {
-	case "add", "rmlast", "rmto", "restart", "crash", "conc", "concrm", "fault", "sqlfault":
+	case "add", "rmlast", "rmto", "restart", "crash", "conc", "concrm", "fault", "sqlfault", "switch":
 		n.hist = append(n.hist, line)
 	}
 	if !n.alive {
 		return "dead"
+	}
+	if ws[0] == "switch" && len(ws) >= 2 {
+		// switch <h> <id,pre,parent,create[,members]>…: the real groupChainFork on the ancestor at height h
+		h, err := strconv.ParseUint(ws[1], 10, 64)
+		if err != nil {
+			return "bad-op"
+		}
+		var gs []*types.Group
+		for i, t := range ws[2:] {
+			p := strings.Split(t, ",")
+			if len(p) != 4 && len(p) != 5 {
+				return "bad-op"
+			}
+			g, ok := parseGroup4(p[0], p[1], p[2], p[3])
+			if !ok {
+				return "bad-op"
+			}
+			if len(p) == 5 {
+				ms, ok := parseMembers(p[4])
+				if !ok {
+					return "bad-op"
+				}
+				g.Members = ms
+			}
+			g.GroupHeight = h + 1 + uint64(i)
+			n.everIds[string(g.Id)] = g.Id
+			gs = append(gs, g)
+		}
+		if !forkHook {
+			return "unmodelled"
+		}
+		gc := core.GetGroupChain()
+		anc := gc.GetGroupByHeight(h)
+		if gc.Count() >= 1<<32 || anc == nil || h >= gc.Count() {
+			return "unmodelled"
+		}
+		n.forkUsed = true
+		var r bool
+		res := guard(func() string { r = forkSwitchImpl(anc, gs); return "" })
+		if strings.HasPrefix(res, "PANIC") {
+			return res
+		}
+		return strconv.FormatBool(r) + " " + n.status()
 	}
 	if ws[0] == "forkput" && len(ws) == 2 {
 		// what groupChainFork does to its own prefixed store "groupFork": same LevelDB, and the
@@ -1078,14 +1207,15 @@ type gen struct {
 	r    *hx.Rng
 	emit func(op string) string // runs op on the implementation (and records it)
 	// generator's own view, used only to bias choices (never to compute answers)
-	listed []string // hex ids believed on chain, genesis first
-	pool   []string
-	create uint64
-	alive  bool
-	part   int
-	parts  int
-	n      *node
-	seqNo  int
+	listed        []string // hex ids believed on chain, genesis first
+	pool          []string
+	create        uint64
+	alive         bool
+	part          int
+	parts         int
+	n             *node
+	seqNo         int
+	genesisFields bool // boot tokens may carry dismiss height and members
 }
 
 // conc: two concurrent AddGroup calls on top of the current last; the outcome goes to the
@@ -1113,6 +1243,8 @@ func (g *gen) conc() {
 	g.emit("rmlast")
 }
 
+var miners = []string{"e1", "e2e2", "e3"}
+
 var idPool = []string{"a1", "a2", "b1b2", "c1c2c3", "d4", "e5e6", "f7"}
 
 func (g *gen) boot(k int) {
@@ -1121,7 +1253,12 @@ func (g *gen) boot(k int) {
 	pre := "-"
 	for i := 0; i < k; i++ {
 		id := fmt.Sprintf("%02x%02x", 0x90+i, 0x01)
-		toks = append(toks, fmt.Sprintf("%s,%s,%s,%d", id, pre, id, i))
+		tok := fmt.Sprintf("%s,%s,%s,%d", id, pre, id, i)
+		if g.r != nil && g.genesisFields && g.r.Chance(1, 2) {
+			dm := []uint64{18446744073709551615, common.GetGroupWorkDuration() + 5, 3, 1}[g.r.Intn(4)] // > 0: the mirror query lists rows with dismissheight > 0
+			tok += fmt.Sprintf(",%d,%s", dm, []string{"-", "e1", "e1+e3"}[g.r.Intn(3)])
+		}
+		toks = append(toks, tok)
 		g.listed = append(g.listed, id)
 		pre = id
 	}
@@ -1155,6 +1292,16 @@ func (g *gen) probes() {
 		e := edges[g.r.Intn(len(edges))]
 		g.emit("byheight " + e)
 		g.emit("syncat " + e + " 2")
+	}
+	if forkHook {
+		dur := common.GetGroupWorkDuration()
+		hs := []uint64{0, g.create, g.create + dur - 1, g.create + dur, dur + 1, dur + 2, 2, 5}
+		if g.create > 2 {
+			hs = append(hs, g.create-2+dur, g.create-1+dur)
+		}
+		h := hs[g.r.Intn(len(hs))]
+		g.emit(fmt.Sprintf("avail %d", h))
+		g.emit(fmt.Sprintf("availm %d %s", h, miners[g.r.Intn(len(miners))]))
 	}
 	if bootHook {
 		g.emit("top")
@@ -1262,7 +1409,7 @@ func (g *gen) boundaryPool() []string {
 	for _, n := range []int{1, 7, 9, 31, 33} {
 		pool = append(pool, mk(n, r.Bool(), r.Bool()))
 	}
-	pool = append(pool, "00", "a1a1", "466f726b"+mk(4, false, false))
+	pool = append(pool, "00", "a1a1") // ("Fork"-prefixed ids live in the malformed stream: the dump hides the fork database's keys)
 	// keep the pool small enough that ids repeat within a sequence
 	for len(pool) > 12 {
 		i := len(idPool) + r.Intn(len(pool)-len(idPool))
@@ -1271,7 +1418,88 @@ func (g *gen) boundaryPool() []string {
 	return pool
 }
 
+// switchOp: a fork switch from a random ancestor on the chain with 0–3 fork groups (mostly well
+// linked; sometimes a wrong predecessor, an unknown parent or an id that is still on the chain).
+func (g *gen) switchOp() string {
+	r := g.r
+	h := r.Intn(len(g.listed))
+	pre := g.listed[h]
+	op := fmt.Sprintf("switch %d", h)
+	k := r.Intn(4)
+	for i := 0; i < k; i++ {
+		g.create++
+		id := g.pool[r.Intn(len(g.pool))]
+		p := pre
+		parent := g.listed[r.Intn(h+1)]
+		switch r.Intn(12) {
+		case 0:
+			p = g.listed[r.Intn(len(g.listed))]
+		case 1:
+			parent = g.pool[r.Intn(len(g.pool))]
+		}
+		tok := fmt.Sprintf("%s,%s,%s,%d", id, p, parent, g.create)
+		if r.Chance(1, 3) {
+			tok += "," + []string{"e1", "e2e2+e3", "-"}[r.Intn(3)]
+		}
+		op += " " + tok
+		pre = id
+	}
+	return op
+}
+
+// forkSwitches: every (chain length 1..4, ancestor, fork length 0..2) with fresh and with re-used ids.
+func (g *gen) forkSwitches() int {
+	if !forkHook {
+		return 0
+	}
+	cnt := 0
+	ids := []string{"a1", "b1b2", "c1c2c3"}
+	fresh := []string{"d4", "e5e6"}
+	for n := 0; n <= 3; n++ {
+		for h := 0; h <= n; h++ {
+			for k := 0; k <= 2; k++ {
+				for reuse := 0; reuse < 2; reuse++ {
+					if reuse == 1 && (k == 0 || h == n) {
+						continue
+					}
+					g.pool = idPool
+					g.boot(1)
+					pre := "9001"
+					for i := 0; i < n; i++ {
+						g.emit(fmt.Sprintf("add %s %s 9001 %d e1", ids[i], pre, i+1))
+						pre = ids[i]
+					}
+					g.resync()
+					op := fmt.Sprintf("switch %d", h)
+					p := g.listed[h]
+					for i := 0; i < k; i++ {
+						id := fresh[i]
+						if reuse == 1 && i == 0 {
+							id = ids[n-1] // the id of a group the switch removes: free again
+						}
+						op += fmt.Sprintf(" %s,%s,9001,%d,e3", id, p, 10+i)
+						p = id
+					}
+					g.emit(op)
+					g.resync()
+					if g.alive {
+						g.probes()
+						g.emit("restart")
+						g.resync()
+						if g.alive {
+							g.probes()
+						}
+					}
+					cnt++
+				}
+			}
+		}
+	}
+	return cnt
+}
+
 func (g *gen) randomSequence(maxOps int, allowCrash bool) {
+	g.genesisFields = forkHook
 	g.pool = idPool
 	if g.seqNo%2 == 1 {
 		g.pool = g.boundaryPool()
@@ -1285,6 +1513,12 @@ func (g *gen) randomSequence(maxOps int, allowCrash bool) {
 			g.emit("restart")
 		} else if g.r.Chance(1, 12) && len(g.listed) > 0 {
 			g.conc()
+		} else if g.r.Chance(1, 10) && len(g.listed) > 0 {
+			g.create++
+			ms := []string{"e1", "e2e2", "e1+e3", "e3+e2e2+e1", "-"}[g.r.Intn(5)]
+			g.emit(fmt.Sprintf("add %s %s %s %d %s", g.pool[g.r.Intn(len(g.pool))], g.last(), g.listed[0], g.create, ms))
+		} else if forkHook && g.r.Chance(1, 10) && len(g.listed) > 0 {
+			g.emit(g.switchOp())
 		} else {
 			op := g.mutator(allowCrash)
 			g.emit(op)
@@ -1797,7 +2031,7 @@ func main() {
 			broken, crashed, faulted = false, false, false
 		case "bootcrash":
 			broken, crashed, faulted = false, strings.HasPrefix(res, "crashed"), false
-		case "add", "rmlast", "rmto", "restart", "crash", "cadd", "fault", "sqlfault":
+		case "add", "rmlast", "rmto", "restart", "crash", "cadd", "fault", "sqlfault", "switch":
 		default:
 			return res
 		}
@@ -1890,6 +2124,7 @@ func main() {
 			panic(err)
 		}
 		violFile, _ = os.Create(a["ops"] + ".viols")
+		out.Emit(fmt.Sprintf("config duration %d", common.GetGroupWorkDuration()), "ok")
 		defer out.Close()
 	}
 
@@ -1916,6 +2151,7 @@ func main() {
 		g.bootCrashes()
 		g.writeFaults()
 		g.sqlFaults()
+		g.forkSwitches()
 		for i := 0; i < nSeq; i++ {
 			g.randomSequence(maxOps, i%3 != 0)
 		}
@@ -1937,6 +2173,7 @@ func main() {
 			g.bootCrashes()
 			g.writeFaults()
 			g.sqlFaults()
+			g.forkSwitches()
 		}
 		for i := 0; i < nSeq; i++ {
 			g.randomSequence(maxOps, i%3 != 0)
